@@ -43,34 +43,8 @@ func runC11(c *Check) {
 	}
 
 	// O2: Publish
-	Pub := r.Publish
 	crit := c11PublishSection(c, P+".O2", r)
-	// the persisted append happens on the Persistent edge and before the fan-outs
-	persTrue, _ := BoolEdges(Pub, exportedFieldLoad("Persistent"))
-	c.Floor(P+".O2", "test of config.Persistent in Publish", len(persTrue), 1)
-	// every path on the Persistent edge passes the append before the first fan-out
-	var appends, fans []ssa.Instruction
-	for _, in := range crit {
-		if mu, ok := in.(*ssa.MapUpdate); ok {
-			if call, isCall := firstOrigin(mu.Value).(*ssa.Call); isCall {
-				if _, isApp := IsBuiltinCall(call, "append"); isApp {
-					appends = append(appends, in)
-				}
-			}
-		} else {
-			fans = append(fans, in)
-		}
-	}
-	for _, e := range persTrue {
-		re := ReachEdge(e, NewCut().AddInstrs(appends...))
-		bad := false
-		for _, f := range fans {
-			if re[f] {
-				bad = true
-			}
-		}
-		c.Report(!bad && len(appends) > 0, P+".O2", "PERSIST-BEFORE-SEND", Pub, e.From.Instrs[len(e.From.Instrs)-1].Pos(), "Persistent edge", "in persistent mode the batch is appended to the log before any of it is sent (a later subscription replays it)")
-	}
+	c11PersistBeforeSend(c, P+".O2", r, crit)
 	// the same test in Subscribe selects the replay path
 	_, persFalseS := BoolEdges(r.Subscribe, exportedFieldLoad("Persistent"))
 	for _, ad := range Callers([]*ssa.Function{r.Subscribe}, r.AddSub) {
@@ -84,6 +58,20 @@ func runC11(c *Check) {
 			gos = append(gos, g)
 		}
 	})
+	for _, f := range WithStarted(R) {
+		for _, cl := range CallsIn(f) {
+			if CalleeFn(cl.Common()) != r.Deliver {
+				continue
+			}
+			known := false
+			for _, g := range gos {
+				if ssa.CallInstruction(g) == cl {
+					known = true
+				}
+			}
+			c.Report(known, P+".O3", "REPLAY-ONE-WAY", f, cl.Pos(), "deliver call in the replay", "the persisted log is replayed in one way only — the full range loop that starts one deliver goroutine per message (a second path, e.g. batches for big histories, needs its own proof that no message is left out)")
+		}
+	}
 	if c.Floor(P+".O3", "go deliver in the replay loop", len(gos), 1) {
 		for _, g := range gos {
 			// message: element [i] of persisted[topic], i a full range index over the snapshot
@@ -286,4 +274,37 @@ func c11PublishSection(c *Check, id string, r *GCRoles) []ssa.Instruction {
 	}
 	c.Report(len(r.LA.Result(Pub).DeferredUnlock[r.idSubs]) > 0 && len(r.LA.Result(Pub).DeferredUnlock[r.idTopic]) > 0, id, "ONE-CRITICAL-SECTION", Pub, Pub.Pos(), "Publish", "both locks are released only by deferred unlocks at the end of Publish")
 	return crit
+}
+
+// c11PersistBeforeSend: in persistent mode — whatever the other options — the
+// batch is appended to the log on every path before any of it is fanned out.
+// Shared with C01.
+func c11PersistBeforeSend(c *Check, id string, r *GCRoles, crit []ssa.Instruction) {
+	Pub := r.Publish
+	// the persisted append happens on the Persistent edge and before the fan-outs
+	persTrue, _ := BoolEdges(Pub, exportedFieldLoad("Persistent"))
+	c.Floor(id, "test of config.Persistent in Publish", len(persTrue), 1)
+	// every path on the Persistent edge passes the append before the first fan-out
+	var appends, fans []ssa.Instruction
+	for _, in := range crit {
+		if mu, ok := in.(*ssa.MapUpdate); ok {
+			if call, isCall := firstOrigin(mu.Value).(*ssa.Call); isCall {
+				if _, isApp := IsBuiltinCall(call, "append"); isApp {
+					appends = append(appends, in)
+				}
+			}
+		} else {
+			fans = append(fans, in)
+		}
+	}
+	for _, e := range persTrue {
+		re := ReachEdge(e, NewCut().AddInstrs(appends...))
+		bad := false
+		for _, f := range fans {
+			if re[f] {
+				bad = true
+			}
+		}
+		c.Report(!bad && len(appends) > 0, id, "PERSIST-BEFORE-SEND", Pub, e.From.Instrs[len(e.From.Instrs)-1].Pos(), "Persistent edge", "in persistent mode the batch is appended to the log before any of it is sent (a later subscription replays it)")
+	}
 }
